@@ -1,5 +1,5 @@
 (* C08 — SemVer-family ecosystems implement SemVer 2.0.0 precedence.
-   Statements only; the proofs live in Eco/{Semver,Npm,Hex,Nuget,Golang}/SpecFacts.v and
+   Statements only; the proofs live in Eco/{Semver,Npm,Hex,Nuget,Golang,Cargo}/SpecFacts.v and
    Spec/SemVerFacts.v.
 
    The reference is Spec/SemVer.v, written from the SemVer 2.0.0 text independently of the Go
@@ -24,8 +24,9 @@
    B  semver (strict): accepts exactly the BNF; Compare is section 11
    C  npm      D  hex      E  nuget      F  golang, with pseudo-versions
    G  witnesses outside the scope
-   TODO: cargo_cmp_is_spec, cargo_accepts_spec_valid — to be added from Eco/Cargo/SpecFacts.v
-   (the reference denotation [den_cargo] already exists in Spec/SemVer.v). *)
+   H  cargo ([den_cargo] = exactly three components, leading zeros allowed, no prefix; its scope
+      predicate is stated on the TEXT: every dot-separated part of the numeric core, and every
+      all-digit part of the pre-release, has a value below 2^63), with its witnesses *)
 From Coq Require Import List NArith.
 From Verif.Base Require Import Bytes GoNum Ord.
 From Verif.Eco Require Import VLayer Iface.
@@ -35,6 +36,7 @@ From Verif.Eco.Npm Require Entry SpecFacts.
 From Verif.Eco.Hex Require Entry SpecFacts.
 From Verif.Eco.Nuget Require Entry SpecFacts.
 From Verif.Eco.Golang Require Entry SpecFacts.
+From Verif.Eco.Cargo Require Entry SpecFacts.
 From Verif.Eco Require RangeCoreFacts.
 Import ListNotations.
 
@@ -393,3 +395,64 @@ Theorem C08_golang_cmp_refuted :
   v_cmp Golang.Entry.v a b = Some Eq /\ SemVer.spec_cmp_with SemVer.den_golang a b = Some Gt.
 Proof. exact Golang.SpecFacts.golang_cmp_refuted. Qed.
 Print Assumptions C08_golang_cmp_refuted.
+
+(* ====================================================================== *)
+(* H. cargo                                                                *)
+(* ====================================================================== *)
+
+Theorem C08_cargo_cmp_is_spec : forall a b : bytes,
+  Cargo.SpecFacts.in_scope a = true -> Cargo.SpecFacts.in_scope b = true ->
+  Cargo.SpecFacts.sp_valid a = true -> Cargo.SpecFacts.sp_valid b = true ->
+  v_cmp Cargo.Entry.v a b = SemVer.spec_cmp_with SemVer.den_cargo a b.
+Proof. exact Cargo.SpecFacts.cargo_cmp_is_spec. Qed.
+Print Assumptions C08_cargo_cmp_is_spec.
+
+Theorem C08_cargo_accepts_spec_valid : forall s : bytes,
+  Cargo.SpecFacts.in_scope s = true -> Cargo.SpecFacts.sp_valid s = true ->
+  exists t, v_show Cargo.Entry.v s = Some t.
+Proof. exact Cargo.SpecFacts.cargo_accepts_spec_valid. Qed.
+Print Assumptions C08_cargo_accepts_spec_valid.
+
+(* the text is cut as the grammar cuts it: build metadata after the first "+", pre-release after
+   the first "-" *)
+Theorem C08_cargo_scope_def : forall s : bytes,
+  Cargo.SpecFacts.sp_valid s = SemVer.isSome (SemVer.den_cargo s) /\
+  Cargo.SpecFacts.in_scope s =
+    (let '(main, _) := split2_c "+"%char s in
+     let '(core, prerel) := split2_c "-"%char main in
+     forallb (fun p => (digits_val p <? two63)%N) (split_c "."%char core) &&
+     match prerel with
+     | None => true
+     | Some p => forallb (fun i => negb (all_digits i) || (digits_val i <? two63)%N) (split_c "."%char p)
+     end).
+Proof. intros s. split; reflexivity. Qed.
+Print Assumptions C08_cargo_scope_def.
+
+(* parts of at most 18 digits (the property's quantifier) are in scope *)
+Theorem C08_cargo_18_digits_in_scope : forall s : bytes,
+  (length s <= 18)%nat -> forallb is_digit s = true -> (digits_val s <? two63)%N = true.
+Proof. exact Cargo.SpecFacts.small_of_18_digits. Qed.
+Print Assumptions C08_cargo_18_digits_in_scope.
+
+(* the reference used above is the one registered for "cargo" in Spec/All.v *)
+Theorem C08_cargo_spec_registered :
+  exists sp : All.spec,
+    All.find_spec (list_ascii_of_string "cargo") All.specs = Some sp /\
+    (forall s : bytes, All.sp_valid sp s = Cargo.SpecFacts.sp_valid s) /\
+    (forall a b : bytes, All.sp_cmp sp a b = Cargo.SpecFacts.sp_cmp a b).
+Proof. exact Cargo.SpecFacts.sp_is_registered. Qed.
+Print Assumptions C08_cargo_spec_registered.
+
+(* outside the scope: an all-digit identifier >= 2^63 is compared as text; a component >= 2^63 is
+   valid SemVer but rejected *)
+Theorem C08_cargo_cmp_refuted :
+  exists a b : bytes,
+    Cargo.SpecFacts.sp_valid a = true /\ Cargo.SpecFacts.sp_valid b = true /\
+    v_cmp Cargo.Entry.v a b = Some Gt /\ SemVer.spec_cmp_with SemVer.den_cargo a b = Some Lt.
+Proof. exact Cargo.SpecFacts.cargo_cmp_is_spec_refuted. Qed.
+Print Assumptions C08_cargo_cmp_refuted.
+
+Theorem C08_cargo_accepts_refuted :
+  exists s : bytes, Cargo.SpecFacts.sp_valid s = true /\ v_show Cargo.Entry.v s = None.
+Proof. exact Cargo.SpecFacts.cargo_accepts_spec_valid_refuted. Qed.
+Print Assumptions C08_cargo_accepts_refuted.
